@@ -277,6 +277,10 @@ def main(argv):
                                       {"class": kind, "history": [d_ for d_, _ in log], "results": [r_ for _, r_ in log], "step": desc, "got": repr(got)[:60], "server_did": repr(want)[:60],
                                        "reply_pieces": mode}, tags=["class:" + kind, "size-limit"])
                         break
+    # ---- stats(): the type conversion of the reply, against the Lean model `Stats.convert` (C05_stats_*) and a monitor of what the docstring promises
+    #      (the monitor needs no model, so it runs before a broken build ends the check: it is the search for a failing input) ----
+    import statsconv_diff
+    statsconv_diff.run(ctx, Client)
     if not ctx.lean.build_ok:
         ctx.finish()
     lines = []
@@ -354,5 +358,5 @@ def main(argv):
                 if got_ != v_:
                     ctx.violation("the value found is not the value stored", {"value": repr(v_), "fetched_with": fetch, "reply_cut_after_byte": cut, "got": repr(got_)[:80]}, tags=["cr-values"])
                     break
-    ctx.assumptions = ["faithful memcached = AbsMap (no eviction, no size limits, decr does not pad)", "time is in whole seconds and constant during a call"]
+    ctx.assumptions = ["CPython's float() (the one converter of stats() that is not modelled)", "faithful memcached = AbsMap (no eviction, no size limits, decr does not pad)", "time is in whole seconds and constant during a call"]
     ctx.finish()
